@@ -63,9 +63,12 @@ def default_for(fam):
     return lambda m: [T.METRICS[fam][m][0]]
 
 
-def judge(fam, allm, nc, script):
+ALT_VERSION = {"2": 2.0, "3.0": 3, "4.0": 4}     # the same version numbers, other numeric spelling
+
+
+def judge(fam, allm, nc, script, version_arg=None):
     dflt = default_for(fam)
-    run = dialogue.run_builder(fam, allm, nc, script, dflt)
+    run = dialogue.run_builder(fam, allm, nc, script, dflt, version_arg=version_arg)
     why = dialogue.judge_run(fam, allm, script, run, dflt)
     if why:
         return why, run
@@ -88,15 +91,16 @@ def _task(t):
     fam, allm, nc, scripts = t
     acc = sweep.new_acc()
     warm_up()
-    for script in scripts:
+    for si, script in enumerate(scripts):
         acc["n"] += 1
-        why, run = judge(fam, allm, nc, script)
+        va = ALT_VERSION.get(fam) if si % 5 == 4 else None    # every fifth dialogue: 2.0 / 3 / 4
+        why, run = judge(fam, allm, nc, script, va)
         acc["calls"] += len(run["asked"])
         acc["cmp"] += 1
         if why:
             sweep.bad(acc, {"what": "ask_interactively(%s, all_metrics=%s, no_colors=%s) with answers %r: %s" % (
                 fam, allm, nc, script, why), "kind": "dialogue", "family": fam,
-                "input": {"all": allm, "no_colors": nc, "script": script},
+                "input": {"all": allm, "no_colors": nc, "script": script, "version_arg": va},
                 "signature": {"kind": "dialogue", "family": fam}})
             continue
         acc["outcomes"].add(("eof" if "eof" in run else "result", len(run["asked"])))
@@ -166,7 +170,7 @@ def run(ctx, res):
 
 def replay(case):
     i = case["input"]
-    why, run = judge(case["family"], i["all"], i["no_colors"], i["script"])
+    why, run = judge(case["family"], i["all"], i["no_colors"], i["script"], i.get("version_arg"))
     return bool(why), why or "as the model predicts"
 
 
